@@ -118,8 +118,9 @@ VARIANTS += [
       "contexts -= contexts.mean(axis=0)\nself.contexts = contexts", "R18.1",
       why="contexts centred in place"),
     V("c18-m5", "C18", "neighbors", "_Neighbors.partial_fit",
-      "self.decisions = np.concatenate((self.decisions, decisions))",
-      "self.decisions[-len(decisions):] = decisions", "R18.1",
+      "self.decisions, self.contexts, self.rewards = decisions, contexts, rewards",
+      "self.decisions[-len(decisions):] = decisions[-len(self.decisions):]\n"
+      "self.contexts, self.rewards = contexts, rewards", "R18.1",
       why="stored history (aliasing the fit argument) overwritten in place"),
     V("c18-m6", "C18", "base_mab", "BaseMAB._warm_start",
       "self._copy_arms(cold_arm_to_warm_arm)",
@@ -250,8 +251,8 @@ VARIANTS += [
       "super().partial_fit(decisions, rewards, contexts)\nstart = len(self.contexts)", "R6.5",
       why="offset read after the append"),
     V("c06-m5", "C06", "neighbors", "_Neighbors.partial_fit",
-      "self.decisions = np.concatenate((self.decisions, decisions))",
-      "self.decisions = np.concatenate((decisions, self.decisions))", "R6.1",
+      "decisions = np.concatenate((self.decisions, decisions))",
+      "decisions = np.concatenate((decisions, self.decisions))", "R6.1",
       why="new decisions prepended: rows misaligned with contexts/rewards"),
     V("c06-m6", "C06", "greedy", "_EpsilonGreedy._fit_arm", "self.arm_to_sum[arm] += arm_rewards.sum()",
       "self.arm_to_sum[arm] = arm_rewards.sum()", "R6.2", why="sum overwritten by the last chunk"),
@@ -281,13 +282,14 @@ VARIANTS += [
     V("c06-b1", "C06", "ucb", "_UCB1.partial_fit", "self.total_count += len(decisions)",
       "self.total_count = self.total_count + len(decisions)", benign=True),
     V("c06-b2", "C06", "neighbors", "_Neighbors.partial_fit",
-      "self.decisions = np.concatenate((self.decisions, decisions))\n"
-      "self.contexts = np.concatenate((self.contexts, contexts))\n"
-      "self.rewards = np.concatenate((self.rewards, rewards))",
       "decisions = np.concatenate((self.decisions, decisions))\n"
       "contexts = np.concatenate((self.contexts, contexts))\n"
       "rewards = np.concatenate((self.rewards, rewards))\n"
-      "self.decisions, self.contexts, self.rewards = decisions, contexts, rewards", benign=True),
+      "self.decisions, self.contexts, self.rewards = decisions, contexts, rewards",
+      "all_decisions = np.concatenate((self.decisions, decisions))\n"
+      "all_contexts = np.concatenate((self.contexts, contexts))\n"
+      "all_rewards = np.concatenate((self.rewards, rewards))\n"
+      "self.decisions, self.contexts, self.rewards = all_decisions, all_contexts, all_rewards", benign=True),
     V("c06-b3", "C06", "linear", "_RidgeRegression.fit", "self.Xty = self.Xty + np.dot(Xt, y)",
       "xty_new = np.dot(Xt, y)\nself.Xty = self.Xty + xty_new", benign=True),
 ]
@@ -846,4 +848,90 @@ VARIANTS += [
     V("c02-b1", "C02", "linear", "_LinUCB.predict", "x_A_inv = np.dot(x, self.A_inv)",
       "inverse = self.A_inv\nx_A_inv = np.dot(x, inverse)", benign=True),
     V("c02-b2", "C02", "linear", "_RidgeRegression.fit", "Xt = X.T", "Xt = X.T\npass", benign=True),
+]
+
+# ---------------------------------------------------------------------------------------------------- seeded changes
+# Mutants that re-create the changes of the independent seeding agents (seeded/<id>/), and benign counterparts
+# of the false alarms they exposed.
+_COLD_LOOP = ("arm_to_distance = {}\n"
+              "for arm in self.trained_arms:\n"
+              "    if arm in self.arms:\n"
+              "        arm_to_distance[arm] = distance_from_to[cold_arm][arm]")
+_NN_BRANCH = ("nn_index = index + start_index\n"
+              "row_neighborhood_stats = neighborhood_stats[nn_index]\n"
+              "if row_neighborhood_stats and row_neighborhood_stats[predicted_arm]:\n"
+              "    arm_to_rewards[predicted_arm].append(row_neighborhood_stats[predicted_arm][stat])\n"
+              "else:\n"
+              "    arm_to_rewards[predicted_arm].append(arm_to_stats[predicted_arm][stat])")
+VARIANTS += [
+    V("c04-m9", "C04", "base_mab", "BaseMAB._get_cold_arm_to_warm_arm", _COLD_LOOP,
+      "arm_to_distance = {arm: distance_from_to[cold_arm][arm] "
+      "for arm in set(self.trained_arms).intersection(self.arms)}", "R4.3",
+      why="donor picked by set iteration order: depends on PYTHONHASHSEED for str arms (seed C04-set-order)"),
+    V("c13-b2", "C13", "base_mab", "BaseMAB._get_cold_arm_to_warm_arm", _COLD_LOOP,
+      "arm_to_distance = {arm: distance_from_to[cold_arm][arm] "
+      "for arm in set(self.trained_arms).intersection(self.arms)}", benign=True,
+      why="for C13 the donor is still a nearest trained arm (the C04 seed must not alarm C13)"),
+    V("c13-b3", "C13", "base_mab", "BaseMAB._get_cold_arm_to_warm_arm", _COLD_LOOP,
+      "donors = [a for a in self.trained_arms if a in self.arms]\n"
+      "arm_to_distance = {a: distance_from_to[cold_arm][a] for a in donors}", benign=True),
+    V("c13-m10", "C13", "base_mab", "BaseMAB._get_cold_arm_to_warm_arm", _COLD_LOOP,
+      "arm_to_distance = {arm: distance_from_to[cold_arm][arm] for arm in self.arms "
+      "if arm not in self.cold_arms}", "R13.3",
+      why="warm but untrained arms donate their second-hand state (seed C13-warm-donors)"),
+    V("c16-m11", "C16", "simulator", "default_evaluator", _NN_BRANCH,
+      "row_neighborhood_stats = neighborhood_stats[index + start_index]\n"
+      "nn_stat = row_neighborhood_stats[predicted_arm].get(stat) if row_neighborhood_stats else None\n"
+      "arm_to_rewards[predicted_arm].append(nn_stat or arm_to_stats[predicted_arm][stat])", "R16.5",
+      why="a neighbourhood statistic of exactly 0 is treated as missing (seed C16-zero-stat)"),
+    V("c16-b3", "C16", "simulator", "default_evaluator", _NN_BRANCH,
+      "row_stats = neighborhood_stats[index + start_index]\n"
+      "if row_stats and predicted_arm in row_stats and row_stats[predicted_arm]:\n"
+      "    arm_to_rewards[predicted_arm].append(row_stats[predicted_arm][stat])\n"
+      "else:\n"
+      "    arm_to_rewards[predicted_arm].append(arm_to_stats[predicted_arm][stat])", benign=True),
+    V("c15-m11", "C15", "simulator", "_NeighborsSimulator._calculate_distances_of_batch",
+      "distances = [None] * len(contexts)\n"
+      "for index, row in enumerate(contexts):\n"
+      "    row_2d = row[np.newaxis, :]\n"
+      "    distances[index] = cdist(self.contexts, row_2d, metric=self.metric).reshape(-1)\n"
+      "return distances",
+      "return list(cdist(contexts, self.contexts, metric=self.metric))", "R15.1",
+      why="batched distance cache: seuclidean/mahalanobis distances depend on the chunk (seed C15-batched-cache)"),
+    V("c18-m9", "C18", "clusters", "_Clusters.__init__",
+      "self.kmeans = KMeans(n_clusters, random_state=rng.seed, n_init=10)",
+      "self.kmeans = KMeans(n_clusters, random_state=rng.seed, n_init=10, copy_x=False)", "R18.1",
+      why="k-means centres the caller's context buffer in place (seed C18-kmeans-copy-x)"),
+    V("c18-m10", "C18", "mab", "MAB.__convert_context",
+      "if not self.is_contextual:\n    return np.asarray(contexts.values, order='C').reshape(-1, 1)", "", "R18.4",
+      why="pd.Series contexts for a context-free policy raise AttributeError (the repaired defect)"),
+    V("c14-m9", "C14", "mab", "MAB.add_arm",
+      "if isinstance(self._imp, (_LSHNearest, _KNearest, _Radius, _TreeBandit)):\n"
+      "    lp = self._imp.lp\n"
+      "elif isinstance(self._imp, _Clusters):\n"
+      "    lp = self._imp.lp_list[0]\n"
+      "else:\n"
+      "    lp = self._imp",
+      "lp = self._imp if isinstance(self._imp, _ThompsonSampling) else self._imp.lp", "R14.2",
+      why="add_arm(arm, binarizer) under Clusters raises AttributeError (the repaired defect)"),
+    V("c14-m10", "C14", "neighbors", "_Neighbors.partial_fit",
+      "if isinstance(self.lp, _ThompsonSampling) and self.lp.binarizer:\n"
+      "    rewards = self._binarize_ts_rewards(decisions, rewards)",
+      "if isinstance(self.lp, _ThompsonSampling) and self.lp.binarizer:\n"
+      "    rewards = self._binarize_ts_rewards(np.concatenate((self.decisions, decisions)), rewards)", "R14.3",
+      why="new rewards are binarized against the arms of the oldest stored rows (seeds C06/C14/C20)"),
+    V("c12-m10", "C12", "clusters", "_Clusters._fit_operation", "self.kmeans.fit(self.contexts)",
+      "if isinstance(self.kmeans, MiniBatchKMeans) and len(self.contexts) > self.n_clusters:\n"
+      "    self.kmeans.partial_fit(self.contexts[-self.n_clusters:])\n"
+      "else:\n"
+      "    self.kmeans.fit(self.contexts)", None,
+      why="mini-batch k-means updated with part of the history: labels_ no longer cover the stored rows (seed "
+          "C12-minibatch-partial)"),
+    V("c05-m14", "C05", "approximate", "_LSHNearest._fit_operation",
+      "hash_values = list(chain.from_iterable((t for t in hash_values)))",
+      "merged = {}\nfor t in hash_values:\n    merged.update(dict(enumerate(t)))\nhash_values = list(merged.values())",
+      "R5.2", why="per-job results merged through dict.update: later partitions overwrite earlier ones (seed C11)"),
+    V("c05-b4", "C05", "approximate", "_LSHNearest._fit_operation",
+      "hash_values = list(chain.from_iterable((t for t in hash_values)))",
+      "hash_values = [h for t in hash_values for h in t]", benign=True),
 ]
